@@ -98,7 +98,6 @@ impl CKBProtocolHandler for SyncProtocol {
                     let db_blocks: HashSet<_> =
                         db_blocks.into_iter().map(|(hash, _)| hash).collect();
 
-                    self.storage.remove_matched_blocks(start_number);
                     let blocks = self.peers.clear_matched_blocks(&mut matched_blocks);
                     assert_eq!(blocks.len(), db_blocks.len());
                     info!(
@@ -115,6 +114,9 @@ impl CKBProtocolHandler for SyncProtocol {
                     }
                     self.storage
                         .update_block_number(start_number + blocks_count - 1);
+                    // The record is removed last: after a crash before this point the blocks are
+                    // downloaded and filtered again instead of being skipped.
+                    self.storage.remove_matched_blocks(start_number);
 
                     // send more GetBlocksProof/GetBlocks requests
                     if let Some((_start_number, _blocks_count, db_blocks)) =
